@@ -4,6 +4,7 @@ import J5V.Print.OrderProofs
 import J5V.Print.OptionTextProofs
 import J5V.Print.LayoutProofs
 import J5V.Print.Grammar
+import J5V.Print.ScalarProofs
 /-!
 # C05 — generated .proto text re-parses to the descriptor it was printed from
 
@@ -290,6 +291,16 @@ example : OptionText.wf (.msg "http" [.scalar "post" "\"/a\"", .scalar "body" "\
     .arr "additional_bindings" [.msg "additional_bindings" [.scalar "post" "\"/b\""], .msg "additional_bindings" []]]) = true := by
   simp [OptionText.wf, OptionText.wfKids, OptionText.wfElems]
 
+/-- Integer option values of any size and sign (`strconv.FormatInt` / `FormatUint`, base 10) are read
+back by the integer-literal reader (decimal / octal / hexadecimal forms of the language) as the
+same number: numeric boundaries included, since there is no bound. Floats are not modelled: their
+text is taken from the Go side and the real read-back is compared bit by bit by the `flt` ops. -/
+theorem C05_int_inv (n : Int) : Scalar.readIntLit (Scalar.intDigits n) = some n :=
+  Scalar.readIntLit_intDigits n
+
+theorem C05_uint_inv (n : Nat) : Scalar.readNatLit (Scalar.natDigits n) = some n :=
+  Scalar.readNatLit_natDigits n
+
 /-! ## 5. the whole file, as far as the kernels carry it -/
 
 /-- one occurrence of a type reference (field type, map value type, method request / response) -/
@@ -446,7 +457,7 @@ open Layout OptionText
 def exOpt (name : String) (v : Opt) : SOpt := ⟨name, [v], false, false, false, 0, 0, name⟩
 
 def exFile : FileD :=
-  ⟨Loc.none, "p.v1", ["a.proto"], [exOpt "go_package" (.scalar "go_package" "\"x/y\"")], [],
+  ⟨Loc.none, "p.v1", [("a.proto", "")], [exOpt "go_package" (.scalar "go_package" "\"x/y\"")], [],
    [ .block "message" 1 Loc.none 0 "M" [exOpt "(j5.ext.v1.message).object" (.msg "object" [])]
        [ .field ⟨.field, Loc.none, 0, "", "string", "a", 1, some "a", [exOpt "(x.v1.f).min" (.scalar "min" "1")]⟩,
          .field ⟨.field, Loc.none, 1, "repeated ", "E", "b_c", 2, some "bC", []⟩,
@@ -462,7 +473,7 @@ def exOptL (name : String) (v : Opt) (inl : Bool) (line : Nat) : SOpt := ⟨name
 
 /-- the arranged file -/
 def exArr : FileD :=
-  ⟨Loc.none, "p.v1", ["a.proto"], [exOpt "go_package" (.scalar "go_package" "\"x/y\"")], [],
+  ⟨Loc.none, "p.v1", [("a.proto", "")], [exOpt "go_package" (.scalar "go_package" "\"x/y\"")], [],
    [ .block "service" 0 Loc.none 0 "S" []
        [ .rpc Loc.none 0 "Get" "M" "M.N" [exOpt "(google.api.http)" (.msg "http" [.scalar "get" "\"/a\""])] ],
      .block "message" 1 Loc.none 0 "M" [exOpt "(j5.ext.v1.message).object" (.msg "object" [])]
@@ -476,7 +487,7 @@ example : exFile.arranged = exArr := by rfl
 
 /-- what a reader of the printed text finds (lines as printed above) -/
 def exRead : FileD :=
-  ⟨Loc.none, "p.v1", ["a.proto"], [exOptL "go_package" (.scalar "" "\"x/y\"") false 9], [],
+  ⟨Loc.none, "p.v1", [("a.proto", "")], [exOptL "go_package" (.scalar "" "\"x/y\"") false 9], [],
    [ .block "service" 0 (lo 11 15) 0 "S" []
        [ .rpc (lo 12 14) 0 "Get" "M" "M.N" [exOptL "(google.api.http)" (.msg "" [.scalar "get" "\"/a\""]) false 13] ],
      .block "message" 1 (lo 17 29) 0 "M" [exOptL "(j5.ext.v1.message).object" (.msg "" []) false 18]
@@ -491,7 +502,7 @@ example : exFile.unloc := by
 
 example : relaidFile exArr exRead := by
   simp [relaidFile, exArr, exRead, relaidKids, relaid, fieldOk, optsOk, optOk, Loc.noComments, lo, exOpt, exOptL,
-    Item.loc, Item.typeOrder, Item.gapEnder, eraseKeys, eraseKids, SOpt.single, SOpt.inl, sortStrings,
+    Item.loc, Item.typeOrder, Item.gapEnder, eraseKeys, eraseKids, SOpt.single, SOpt.inl, sortImports,
     Order.locLess_irrefl, Order.isort, Order.insertBy, Loc.none]
 
 /-- the text of the example and of its reading are the same -/
@@ -502,7 +513,7 @@ example : printFile "gen" exRead = printFile "gen" exFile :=
       have h : exFile.arranged = exArr := by rfl
       rw [h]
       simp [relaidFile, exArr, exRead, relaidKids, relaid, fieldOk, optsOk, optOk, Loc.noComments, lo, exOpt, exOptL,
-        Item.loc, Item.typeOrder, Item.gapEnder, eraseKeys, eraseKids, SOpt.single, SOpt.inl, sortStrings,
+        Item.loc, Item.typeOrder, Item.gapEnder, eraseKeys, eraseKids, SOpt.single, SOpt.inl, sortImports,
         Order.locLess_irrefl, Order.isort, Order.insertBy, Loc.none])
 
 end example_file
